@@ -9,6 +9,7 @@ package vm
 import (
 	"github.com/mattn/anko/env"
 	zz "github.com/mattn/anko/zzverif"
+	"time"
 )
 
 func zzChanEnv(a, b, c int64) *env.Env {
@@ -295,7 +296,9 @@ func ZZ_C16_blocked_receiver() {
 	nsend := zz.Choose(3)
 	sends := []string{"", "ch <- A; ", "ch <- A; ch <- B; "}[nsend]
 	// `gate` makes sure the producer only starts once the consumer is about to block
-	prod := "go func() { <-gate; " + sends + "close(ch) }()\n"
+	// (pause: natively 30 ms, so that the receiver is blocked before the producer acts)
+	e.Define("pause", func() { time.Sleep(30 * time.Millisecond) })
+	prod := "go func() { <-gate; pause(); " + sends + "pause(); close(ch) }()\n"
 	head := "ch = make(chan " + elem + capv + ")\ngate = make(chan int64)\n" + prod + "gate <- 1\n"
 	form := zz.Choose(4)
 	id := []string{"receive-expression", "receive-statement", "two-value-receive-statement", "for-in"}[form] + "/" + elem + "/cap" + capv + "/" + []string{"close", "send-close", "send-send-close"}[nsend]
